@@ -45,6 +45,7 @@ fn gencfg(a: &Args) -> GenCfg {
     c.p_barrier = a.num("pbarrier", 0.08);
     c.p_dep = a.num("pdep", 0.3);
     c.inner_tl = a.flag("innertl");
+    c.p_stat = a.num("pstat", 0.05);
     c
 }
 
